@@ -194,6 +194,80 @@ func checkC15(w *World, c *Check, tier string) {
 		}
 	}
 
+	// ---- Of answers through the per-kind lookups: every value CollectionPath.Of can return is nil or the result of one of
+	// the of* lookups (ofIRI builds owner + name; ofActor / ofObject yield the explicit property or fall back to ofIRI).
+	// A return of something else — the item's own IRI "because it already is that collection" — makes IRI(owner) hand
+	// the owner back for owners whose last segment is the collection name, and Split then cuts that segment off ----
+	if of := w.Method("CollectionPath", "Of"); of != nil && of.Blocks != nil {
+		pr := newProver(w)
+		seenV := map[ssa.Value]bool{}
+		bad := ""
+		var badPos ssa.Instruction
+		var judge func(v ssa.Value, at ssa.Instruction, d int)
+		judge = func(v ssa.Value, at ssa.Instruction, d int) {
+			if v == nil || d > 12 || seenV[v] || bad != "" {
+				return
+			}
+			seenV[v] = true
+			for _, leaf := range phiLeaves(v) {
+				switch x := leaf.(type) {
+				case *ssa.Const:
+					continue
+				case *ssa.Call:
+					cal := x.Common().StaticCallee()
+					if cal != nil && cal.Signature.Recv() != nil && namedOf(cal.Signature.Recv().Type()) == w.Named("CollectionPath") && (strings.HasPrefix(cal.Name(), "of") || cal.Name() == "Of") {
+						continue
+					}
+					bad, badPos = "the result of "+shortVal(x), at
+				case *ssa.UnOp:
+					if x.Op == token.MUL {
+						var cell ssa.Value = x.X
+						if fv, isFV := cell.(*ssa.FreeVar); isFV {
+							if b, ok := pr.fvMap[fv]; ok {
+								cell = b
+							}
+						}
+						if al, isAl := cell.(*ssa.Alloc); isAl {
+							for _, st := range storesTo(al) {
+								judge(st.Val, st, d+1)
+							}
+							// stores made by the callbacks that capture the cell
+							for _, a := range allAnon(of) {
+								for fi, fv := range a.FreeVars {
+									if b, ok := pr.fvMap[fv]; ok && b == ssa.Value(al) && fv.Referrers() != nil {
+										_ = fi
+										for _, r := range *fv.Referrers() {
+											if st, isSt := r.(*ssa.Store); isSt && st.Addr == ssa.Value(fv) {
+												judge(st.Val, st, d+1)
+											}
+										}
+									}
+								}
+							}
+							continue
+						}
+					}
+					bad, badPos = shortVal(x), at
+				default:
+					bad, badPos = shortVal(leaf), at
+				}
+			}
+		}
+		nRet := 0
+		for _, rb := range returnBlocks(of) {
+			ret := rb.Instrs[len(rb.Instrs)-1].(*ssa.Return)
+			if len(ret.Results) == 1 {
+				nRet++
+				judge(ret.Results[0], ret, 0)
+			}
+		}
+		if bad != "" {
+			c.bad("C15.build", "Of:sources", w.InstrPos(badPos), fmt.Sprintf("CollectionPath.Of can return %s, which is neither nil nor the result of one of the of* lookups: an item that is handed back as its own collection (an IRI that \"already ends in the name\") breaks build/split for the owners whose last path segment is that name", bad))
+		} else if nRet > 0 {
+			c.ok("C15.build", "Of:sources", w.FuncPos(of), "every result is nil or comes from an of* lookup")
+		}
+	}
+
 	// ---- IRIf builds: whatever IRIf returns is made of BOTH its arguments — the owner and, after it, the collection name.
 	// A return that hands the owner back (trimmed or not) "because it already ends in that name" breaks build/split for
 	// exactly the owners whose last segment is the name being built: Split then cuts the owner's own segment off ----
